@@ -369,6 +369,32 @@ class Machine(object):
                         tab = np.loadtxt(p, comments="#", ndmin=2)
                         new_model = collections.OrderedDict((t2, fl(tab[:, q])) for q, (t2, v) in enumerate(cols))
                     self.rereads = getattr(self, "rereads", 0) + 1
+                elif name == "load_malformed":
+                    # an HDF5 peaks group in which one dataset has another length (a file written by other software, or cut
+                    # short): loading it must be refused, or give a table whose columns all have nrows entries
+                    import h5py
+                    rr = random.Random(op["pseed"])
+                    tt = rr.sample(NAMES, rr.randint(2, 5))
+                    n2 = rr.randint(2, 9)
+                    p = os.path.join(self.scratch, "c17_bad_%d.h5" % os.getpid())
+                    if os.path.exists(p):
+                        os.remove(p)
+                    odd = rr.randrange(len(tt))
+                    with h5py.File(p, "w") as h:
+                        gq = h.create_group("peaks")
+                        gq.attrs["ImageD11_type"] = "peaks"
+                        for q, t2 in enumerate(tt):
+                            gq.create_dataset(t2, data=np.arange(n2 + (rr.choice([-1, 1, 3]) if q == odd else 0), dtype=float))
+                    self.malformed = getattr(self, "malformed", 0) + 1
+                    try:
+                        bad = self.cfm.colfile_from_hdf(p, name="peaks")
+                    except Exception:
+                        bad = None
+                    if bad is not None:
+                        for t2 in bad.titles:
+                            if len(bad.getcolumn(t2)) != bad.nrows or len(getattr(bad, t2)) != bad.nrows:
+                                return self.V("not-rectangular", "an HDF5 group with datasets of unequal length was loaded without complaint: "
+                                                                 "column '%s' has %d entries, nrows is %d" % (t2, len(bad.getcolumn(t2)), bad.nrows))
                 elif name == "keys":
                     if list(cf.keys()) != titles:
                         return self.V("titles", "keys() %s vs %s" % (cf.keys(), titles))
@@ -394,7 +420,7 @@ def gen_ops(rnd, nops):
                ("setattr_array", 3), ("setitem_scalar", 2), ("setattr_scalar", 3), ("addcolumn_from_existing", 2),
                ("write_attr", 3), ("write_item", 2), ("write_getcolumn", 2), ("filter", 4), ("removerows", 3), ("sortby", 3),
                ("reorder", 3), ("copy", 2), ("copyrows", 3), ("get_bigarray", 4), ("set_bigarray", 2), ("keys", 1),
-               ("invalid_addcolumn", 2), ("invalid_filter", 1), ("invalid_setattr", 1), ("invalid_set_bigarray", 1), ("invalid_reorder", 1), ("reread", 2)]
+               ("invalid_addcolumn", 2), ("invalid_filter", 1), ("invalid_setattr", 1), ("invalid_set_bigarray", 1), ("invalid_reorder", 1), ("reread", 2), ("load_malformed", 1)]
     names = [n for n, w in weights for _ in range(w)]
     for _ in range(nops):
         n = rnd.choice(names)
@@ -404,6 +430,8 @@ def gen_ops(rnd, nops):
             op["col"] = rnd.randint(0, 11)
             op["name"] = rnd.choice(NAMES)
             op["how"] = rnd.choice(["long", "long", "ragged", "str", "set", "dict"])
+        if n == "load_malformed":
+            op["pseed"] = rnd.getrandbits(32)
         if n == "reread":
             op["pseed"] = rnd.getrandbits(32)
             op["how"] = rnd.choice(["hdf", "hdf", "text"])
